@@ -45,6 +45,8 @@ def run(ctx):
     rep.rule("C18.R4", "one scalar prox parameter per vector-valued friction law (Coulomb direction)", 4)
     rep.rule("C18.R3", "active-set restriction of velocity-level normal percussions", 3)
     rep.rule("C18.R5", "local normal/friction connectivity of the active set (index typing in compute_I_F)", 4)
+    rep.rule("C18.R12", "Moreau applies Coulomb's law to xi_F = W_F.T u + ...: the friction force directions W_F = gamma_F_u.T of the contact elements carry exactly the factors of the slip gamma_F (Leibniz support, K10) and read no datum it does not read (K13) - otherwise Moreau projects a fictitious slip while the gamma_F-based schemes project the true one", 4)
+    friction_direction_is_slip_jacobian(ctx)
     rep.rule("C18.R11", "RATTLE: the active set of stage 2 is the set on which stage 1's normal projection is active, decided from the SAME argument the stage-1 prox projects (so a contact that carries a stage-1 percussion is in it by construction, whatever gap residual the stage-1 iteration left)", 1)
     rattle_stage2_set(ctx)
     rep.rule("C18.R10", "velocity-level schemes: the active set is a function of the gap alone - every CLOSED contact takes part in the complementarity problem; no velocity-dependent pre-filter", 2)
@@ -134,6 +136,26 @@ def run(ctx):
             else:
                 rep.bad("C18.R3", C, fn.name, "velocity-level normal percussions are not restricted to closed contacts (no active-set mask): an open contact "
                         "with approaching velocity would receive a percussion", f"{rel}:{fn.lineno}")
+
+
+def friction_direction_is_slip_jacobian(ctx, rule="C18.R12"):
+    from .. import support, depmono, protocol as _pr
+    from .c06 import contact_classes
+    rep = ctx.rep
+    n = 0
+    for ci in contact_classes(ctx):
+        view = _pr.ClassView(ctx, ci)
+        c, fn = view.method("gamma_F_u")
+        if fn is None:
+            bs = view.bodies("gamma_F_u")
+            fn = bs[0][1] if bs else None
+        if fn is None:
+            continue
+        n += 1
+        support.check(rep, rule, view, f"{ci.rel}:{ci.qual}.gamma_F_u", ci.rel, "gamma_F", "gamma_F_u", "u", None, lineno=getattr(fn, "lineno", 0), zero=())
+        depmono.check(rep, rule, view, ci.rel, ci.qual, "gamma_F", "gamma_F_u", lineno=getattr(fn, "lineno", 0))
+    if n < 2:
+        raise AnalysisError(f"{rule}: fewer than 2 contact classes with gamma_F_u")
 
 
 def rattle_stage2_set(ctx, rule="C18.R11"):
